@@ -177,7 +177,7 @@ func ParseContracts(pkgPath, filename string, file *ast.File, fsetLine func(ast.
 					return nil, fmt.Errorf("%s:%d: clause outside contract", filename, line)
 				}
 				parts := strings.Fields(rest)
-				if len(parts) < 3 || (parts[1] != "invariant" && parts[1] != "step") {
+				if len(parts) < 3 || (parts[1] != "invariant" && parts[1] != "step" && parts[1] != "opaque") {
 					return nil, fmt.Errorf("%s:%d: expected 'loop <n> invariant|step <expr>'", filename, line)
 				}
 				n, err := strconv.Atoi(parts[0])
@@ -205,11 +205,13 @@ func ParseContracts(pkgPath, filename string, file *ast.File, fsetLine func(ast.
 					return nil, fmt.Errorf("%s:%d: clause outside contract", filename, line)
 				}
 				parts := strings.Fields(rest)
-				if len(parts) < 3 || parts[1] != "assert" {
-					return nil, fmt.Errorf("%s:%d: expected 'at <site> assert <expr>'", filename, line)
+				if len(parts) < 3 || (parts[1] != "assert" && parts[1] != "assume") {
+					return nil, fmt.Errorf("%s:%d: expected 'at <site> assert|assume <expr>'", filename, line)
 				}
-				r := strings.TrimSpace(strings.TrimPrefix(strings.TrimSpace(strings.TrimPrefix(strings.TrimSpace(rest), parts[0])), "assert"))
-				cl := &Clause{Kind: "assert", At: parts[0], File: filename, Line: line}
+				r := strings.TrimSpace(strings.TrimPrefix(strings.TrimSpace(strings.TrimPrefix(strings.TrimSpace(rest), parts[0])), parts[1]))
+				// "assume" at a site: a stated, unchecked assumption about values produced by unmodelled code
+				// (echoed in the evidence); "assert": an obligation
+				cl := &Clause{Kind: parts[1], At: parts[0], File: filename, Line: line}
 				if tm := reTags.FindStringSubmatch(r); tm != nil {
 					cl.Tags = splitTags(tm[1])
 					r = r[len(tm[0]):]
